@@ -723,6 +723,17 @@ class PhaseField(_Simu):
         if iter is not None:
             self.Set_Iter(iter)
 
+        # a query leaves the trial history field alone (several results evaluate it, and the
+        # next Save_Iter commits whatever it holds)
+        trial_psiP_e_pg = self.__psiP_e_pg
+        try:
+            return self.__Result(result, nodeValues)
+        finally:
+            self.__psiP_e_pg = trial_psiP_e_pg
+
+    def __Result(
+        self, result: str, nodeValues: bool = True
+    ) -> Union[_types.FloatArray, float, None]:
         if not self._Results_Check_Available(result):
             return None  # type: ignore [return-value]
 
